@@ -35,6 +35,7 @@ import (
 	"github.com/sasha-s/go-deadlock"
 
 	. "verifharness/common"
+	"verifharness/mocks"
 )
 
 // ---------------------------------------------------------------------------------------------
@@ -43,6 +44,11 @@ import (
 type Call struct {
 	At   int    `json:"at"`
 	Kind string `json:"kind"` // run | runif | cancel | cancelif | ctx | dup | exists | resched (CancelJob, then ScheduleJob of the name, back to back)
+	// Cctx: the CALLER's context handed to RunJob / RunJobIfExists / CancelJob / CancelJobIfExists / JobExists
+	// (it is not the job's context): "" live | done (cancelled before the call) | expired (deadline already
+	// passed) | race (cancelled by another goroutine while the call is made).  The scheduler's contract does not
+	// make a claim depend on it: the model ignores it, the property holds whatever it is.
+	Cctx string `json:"cctx,omitempty"`
 }
 
 type Script struct {
@@ -53,12 +59,17 @@ type Script struct {
 	Calls []Call `json:"calls"`
 	End   int    `json:"end"`
 	Reps  int    `json:"reps,omitempty"` // 0 = decided by the harness (ties: many, tie-free: few)
+	// Real: run in REAL time outside a bubble, one script unit = Unit milliseconds, in a child process whose
+	// environment has GODEBUG=asynctimerchan=1 (the timer-channel semantics of the repository's go directive).
+	Real bool `json:"real,omitempty"`
+	Unit int  `json:"unit,omitempty"`
 }
 
 type TOp struct {
 	Op       string `json:"op"` // sched | run | cancel | exists | list | cancelall
 	Name     int    `json:"name,omitempty"`
 	Periodic bool   `json:"periodic,omitempty"`
+	Cctx     string `json:"cctx,omitempty"` // the caller's context of run / cancel / exists / list / cancelall: "" | done | expired
 }
 
 type Input struct {
@@ -83,6 +94,8 @@ type Obs struct {
 	Hung      bool     `json:"hung"`
 	Running   int      `json:"running"` // executions of jobFunc in progress when the script ended
 	Dup       string   `json:"dup"`     // "None": no second ScheduleJob of the name was accepted; "Some true|false": JobExists(name) at the end of the script, while that second job is pending
+	Insts     []int    `json:"insts"`   // periodic: the times returned by runtimeFunc up to the end of the script
+	Foreign   []string `json:"foreign,omitempty"` // texts of the errors outside the scheduler's set that calls returned (those calls read "Foreign" in Calls)
 	Count     int      `json:"count"`
 }
 
@@ -101,13 +114,32 @@ func codeOf(err error) string {
 	case errors.Is(err, scheduler.ErrJobAlreadyExists):
 		return "Ret ErrJobAlreadyExists"
 	}
-	return "Hung" // an error outside the scheduler's enum: never predicted by the model
+	return "Foreign" // an error outside the scheduler's set (e.g. the caller's ctx.Err()): never predicted by the model
+}
+
+// callerCtx builds the context a caller hands to the scheduler.  The returned function releases it.
+func callerCtx(parent context.Context, kind string) (context.Context, func()) {
+	switch kind {
+	case "done":
+		c, cancel := context.WithCancel(parent)
+		cancel()
+		return c, cancel
+	case "expired":
+		return context.WithDeadline(parent, time.Now().Add(-time.Millisecond))
+	case "race":
+		c, cancel := context.WithCancel(parent)
+		go cancel()
+		return c, cancel
+	}
+	return parent, func() {}
 }
 
 type shared struct {
 	mu        sync.Mutex
 	calls     []string
 	starts    []int
+	insts     []int
+	foreign   []string
 	inflight  int
 	overlap   int
 	exists    bool
@@ -147,7 +179,30 @@ func expand(calls []Call) []Call {
 	return out
 }
 
-// body runs inside the bubble.
+// clock: how a script's instants map to time.  In a bubble one unit is a millisecond of fake time and
+// "at rest" is synctest.Wait; in real time one unit is sc.Unit milliseconds, instants are read back by
+// rounding down (events are never early, only late), and "at rest" is half a unit later.
+type clock struct {
+	real bool
+	unit time.Duration
+}
+
+func (c clock) rest() {
+	if c.real {
+		time.Sleep(c.unit / 2)
+	} else {
+		synctest.Wait()
+	}
+}
+
+func clockOf(sc Script) clock {
+	if sc.Real {
+		return clock{real: true, unit: time.Duration(sc.Unit) * time.Millisecond}
+	}
+	return clock{unit: time.Millisecond}
+}
+
+// body runs the script: inside a bubble, or (sc.Real) in real time.
 func body(sc Script, st *shared) {
 	defer func() {
 		if r := recover(); r != nil {
@@ -156,9 +211,11 @@ func body(sc Script, st *shared) {
 			st.mu.Unlock()
 		}
 	}()
+	clk := clockOf(sc)
 	t0 := time.Now()
-	now := func() int { return int(time.Since(t0) / time.Millisecond) }
-	ms := func(n int) time.Duration { return time.Duration(n) * time.Millisecond }
+	at := func(t time.Time) int { return int((t.Sub(t0) + clk.unit/16) / clk.unit) }
+	now := func() int { return at(time.Now()) }
+	ms := func(n int) time.Duration { return time.Duration(n) * clk.unit }
 	svc, err := advanced.New(context.Background(), advanced.WithLogLevel(zerolog.Disabled), advanced.WithMonitor(nullmetrics.New()))
 	if err != nil {
 		panic(err)
@@ -193,7 +250,11 @@ func body(sc Script, st *shared) {
 				return time.Time{}, scheduler.ErrNoMoreInstances
 			}
 			left--
-			return time.Now().Add(ms(sc.Due)), nil
+			next := time.Now().Add(ms(sc.Due))
+			st.mu.Lock()
+			st.insts = append(st.insts, at(next))
+			st.mu.Unlock()
+			return next, nil
 		}
 		err = svc.SchedulePeriodicJob(jobCtx, "c02", jobName, runtimeFunc, jobFunc)
 	} else {
@@ -212,6 +273,16 @@ func body(sc Script, st *shared) {
 		}
 		return err
 	}
+	// code of a call's result; the text of an error outside the scheduler's set is kept for the evidence
+	code := func(err error) string {
+		c := codeOf(err)
+		if c == "Foreign" {
+			st.mu.Lock()
+			st.foreign = append(st.foreign, err.Error())
+			st.mu.Unlock()
+		}
+		return c
+	}
 	base := 0
 	for _, c := range sc.Calls {
 		i := base
@@ -222,33 +293,35 @@ func body(sc Script, st *shared) {
 		go func() {
 			time.Sleep(ms(c.At))
 			st.tick()
+			cctx, release := callerCtx(rootCtx, c.Cctx)
+			defer release()
 			var res string
 			switch c.Kind {
 			case "resched":
-				r1 := codeOf(svc.CancelJob(rootCtx, jobName))
-				r2 := codeOf(dupJob())
+				r1 := code(svc.CancelJob(cctx, jobName))
+				r2 := code(dupJob())
 				st.mu.Lock()
 				st.calls[i], st.calls[i+1] = r1, r2
 				st.mu.Unlock()
 				st.tick()
 				return
 			case "run":
-				res = codeOf(svc.RunJob(rootCtx, jobName))
+				res = code(svc.RunJob(cctx, jobName))
 			case "runif":
-				svc.RunJobIfExists(rootCtx, jobName)
+				svc.RunJobIfExists(cctx, jobName)
 				res = "Silent"
 			case "cancel":
-				res = codeOf(svc.CancelJob(rootCtx, jobName))
+				res = code(svc.CancelJob(cctx, jobName))
 			case "cancelif":
-				svc.CancelJobIfExists(rootCtx, jobName)
+				svc.CancelJobIfExists(cctx, jobName)
 				res = "Silent"
 			case "ctx":
 				jobCancel()
 				res = "Ret Nil"
 			case "dup":
-				res = codeOf(dupJob())
+				res = code(dupJob())
 			case "exists":
-				res = fmt.Sprintf("RetB %v", svc.JobExists(rootCtx, jobName))
+				res = fmt.Sprintf("RetB %v", svc.JobExists(cctx, jobName))
 			default:
 				res = "Hung"
 			}
@@ -259,7 +332,7 @@ func body(sc Script, st *shared) {
 		}()
 	}
 	time.Sleep(ms(sc.End))
-	synctest.Wait()
+	clk.rest()
 	st.tick()
 	// a re-scheduling call that was accepted: that job is pending and must hold the name; then it is
 	// removed again (its own context)
@@ -268,13 +341,15 @@ func body(sc Script, st *shared) {
 		dup = fmt.Sprintf("Some %v", svc.JobExists(rootCtx, jobName))
 	}
 	dupCancel()
-	synctest.Wait()
+	if !clk.real || st.dupOK.Load() {
+		clk.rest()
+	}
 	st.tick()
 	// observations after the script; the original job is left alone
 	exists := svc.JobExists(rootCtx, jobName)
 	isListed := listed(svc, jobName)
 	st.mu.Lock()
-	nstarts, running := len(st.starts), st.inflight
+	nstarts, running, ninsts := len(st.starts), st.inflight, len(st.insts)
 	st.mu.Unlock()
 	var reuseRuns atomic.Int64
 	reuseCtx, reuseCancel := context.WithCancel(rootCtx)
@@ -282,9 +357,10 @@ func body(sc Script, st *shared) {
 	rerr := svc.ScheduleJob(reuseCtx, "c02", jobName, time.Now().Add(ms(1)), func(context.Context) { reuseRuns.Add(1) })
 	// left alone until after its time; the original job may go on (a periodic job, a long jobFunc)
 	time.Sleep(ms(3))
-	synctest.Wait()
+	clk.rest()
 	st.mu.Lock()
 	st.starts = st.starts[:nstarts] // what the original job did after the observation instant is not part of it
+	st.insts = st.insts[:ninsts]
 	st.exists, st.listed, st.reuse, st.reuseRuns = exists, isListed, codeOf(rerr), int(reuseRuns.Load())
 	st.running = running
 	st.dup = dup
@@ -387,8 +463,59 @@ wait:
 	}
 	st.mu.Lock()
 	defer st.mu.Unlock()
+	return collect(st, hung)
+}
+
+// runRealOnce runs one repetition of a script in real time, outside any bubble (the process was started with
+// GODEBUG=asynctimerchan=1).  It is given the script's length plus two seconds.
+// noisy: a probe goroutine sleeping a third of a unit over and over woke up more than a third of a unit late
+// at some point of the repetition: the machine did not deliver the script's unit, the repetition is not used.
+func runRealOnce(sc Script) (o Obs, noisy bool) {
+	st := &shared{calls: make([]string, len(expand(sc.Calls))), dup: "None"}
+	for i := range st.calls {
+		st.calls[i] = "Hung"
+	}
+	done := make(chan struct{})
+	go func() {
+		defer close(done)
+		body(sc, st)
+	}()
+	step := time.Duration(sc.Unit) * time.Millisecond / 3
+	var worst atomic.Int64
+	probeDone := make(chan struct{})
+	go func() {
+		defer close(probeDone)
+		for {
+			select {
+			case <-done:
+				return
+			default:
+			}
+			t := time.Now()
+			time.Sleep(step)
+			if late := int64(time.Since(t) - step); late > worst.Load() {
+				worst.Store(late)
+			}
+		}
+	}()
+	hung := false
+	select {
+	case <-done:
+		<-probeDone
+	case <-time.After(time.Duration((sc.End+8)*sc.Unit)*time.Millisecond + 2*time.Second):
+		hung = true
+	}
+	st.mu.Lock()
+	defer st.mu.Unlock()
+	return collect(st, hung), time.Duration(worst.Load()) > step
+}
+
+// collect: the observation of one repetition (st.mu held).
+func collect(st *shared, hung bool) Obs {
 	o := Obs{Calls: append([]string(nil), st.calls...), Starts: append([]int{}, st.starts...), Overlap: st.overlap,
-		Exists: st.exists, Listed: st.listed, Reuse: st.reuse, ReuseRuns: st.reuseRuns, Panic: st.panicked, Running: st.running, Dup: st.dup}
+		Exists: st.exists, Listed: st.listed, Reuse: st.reuse, ReuseRuns: st.reuseRuns, Panic: st.panicked, Running: st.running, Dup: st.dup,
+		Insts: append([]int{}, st.insts...), Foreign: append([]string(nil), st.foreign...)}
+	sort.Strings(o.Foreign)
 	if hung || !st.finished {
 		o.Hung = true
 		o.Running = st.inflight
@@ -443,7 +570,13 @@ func scriptTerm(sc Script) string {
 
 func obsKey(o Obs) string {
 	calls := make([]string, 0, len(o.Calls))
+	foreign := make([]string, 0, len(o.Calls))
 	for _, c := range o.Calls {
+		// a call that returned an error outside the scheduler's set: no status of the model; flagged
+		foreign = append(foreign, Bool(c == "Foreign"))
+		if c == "Foreign" {
+			c = "Hung"
+		}
 		if strings.Contains(c, " ") {
 			c = "(" + c + ")"
 		}
@@ -453,13 +586,18 @@ func obsKey(o Obs) string {
 	for _, s := range o.Starts {
 		starts = append(starts, N(uint64(s)))
 	}
+	insts := make([]string, 0, len(o.Insts))
+	for _, s := range o.Insts {
+		insts = append(insts, N(uint64(s)))
+	}
 	reuse := strings.TrimPrefix(o.Reuse, "Ret ")
-	if reuse == "Hung" {
+	if reuse == "Hung" || reuse == "Foreign" {
 		reuse = "ErrJobFinalised" // never a result of ScheduleJob: mismatches
 	}
 	out := Record("o_calls", List(calls), "o_starts", List(starts), "o_overlap", N(uint64(o.Overlap)),
 		"o_exists", Bool(o.Exists), "o_reuse", reuse, "o_reuse_runs", N(uint64(o.ReuseRuns)), "o_panic", Bool(o.Panic))
-	return "ob_out := " + out + "; ob_listed := " + Bool(o.Listed) + "; ob_hung := " + Bool(o.Hung) + "; ob_running := " + N(uint64(o.Running)) + "; ob_dup := " + map[string]string{"None": "None", "Some true": "(Some true)", "Some false": "(Some false)"}[o.Dup]
+	return "ob_out := " + out + "; ob_listed := " + Bool(o.Listed) + "; ob_hung := " + Bool(o.Hung) + "; ob_running := " + N(uint64(o.Running)) + "; ob_dup := " + map[string]string{"None": "None", "Some true": "(Some true)", "Some false": "(Some false)"}[o.Dup] +
+		"; ob_insts := " + List(insts) + "; ob_foreign := " + List(foreign)
 }
 
 func obsTerm(o Obs) string {
@@ -533,6 +671,26 @@ func normalise(sc Script) Script {
 	}
 	if sc.Kind != "periodic" {
 		sc.Ticks = 0
+	}
+	if sc.Real {
+		// one unit = 10..100 ms of real time; no concurrent cancellation of a caller's context (nothing to
+		// order it with outside a bubble); at most 40 units
+		if sc.Unit < 10 {
+			sc.Unit = 30
+		}
+		if sc.Unit > 100 {
+			sc.Unit = 100
+		}
+		if sc.End > 40 {
+			sc.End = 40
+		}
+		for i := range sc.Calls {
+			if sc.Calls[i].Cctx == "race" {
+				sc.Calls[i].Cctx = "done"
+			}
+		}
+	} else {
+		sc.Unit = 0
 	}
 	return sc
 }
@@ -725,6 +883,148 @@ func genPeriodic(r *Rand) (Script, []string) {
 	return sc, tags
 }
 
+// genCallerCtx: scripts whose callers hand a cancelled / expired / concurrently cancelled context of their
+// own to RunJob, RunJobIfExists, CancelJob, CancelJobIfExists and JobExists.  The job's own context is alive
+// unless the script cancels it: a claim must not depend on the caller's context (the job accepted, not
+// cancelled, runs exactly once; a periodic job keeps ticking).
+func genCallerCtx(r *Rand, i int) (Script, []string) {
+	kinds := []string{"done", "done", "expired", "race"}
+	kc := func() string { return kinds[r.Intn(len(kinds))] }
+	var sc Script
+	var tags []string
+	switch fam := i % 8; fam {
+	case 0: // one-off, one run request clearly before T
+		T := r.Range(3, 6)
+		sc = Script{Kind: "oneoff", Due: T, Dur: r.Range(0, 2)}
+		sc.Calls = []Call{{At: r.Range(1, T-1), Kind: []string{"run", "run", "runif"}[r.Intn(3)], Cctx: kc()}}
+		tags = []string{"cctx:oneoff-run-before-T"}
+	case 1: // one-off, run request(s) at T
+		T := r.Range(2, 5)
+		sc = Script{Kind: "oneoff", Due: T, Dur: r.Range(0, 2)}
+		for k := r.Range(1, 2); k > 0; k-- {
+			sc.Calls = append(sc.Calls, Call{At: T, Kind: "run", Cctx: kc()})
+		}
+		tags = []string{"cctx:oneoff-run-at-T"}
+	case 2: // one-off, cancel before T with a dead caller context: the job is cancelled all the same
+		T := r.Range(3, 6)
+		sc = Script{Kind: "oneoff", Due: T, Dur: r.Range(0, 2)}
+		sc.Calls = []Call{{At: r.Range(1, T-1), Kind: []string{"cancel", "cancel", "cancelif"}[r.Intn(3)], Cctx: kc()}}
+		if r.Bool() {
+			sc.Calls = append(sc.Calls, Call{At: T + 1, Kind: "exists", Cctx: kc()})
+		}
+		tags = []string{"cctx:oneoff-cancel-before-T"}
+	case 3: // periodic, an early run with a dead caller context, then the remaining instances
+		P := r.Range(2, 4)
+		sc = Script{Kind: "periodic", Due: P, Dur: r.Range(0, 2), Ticks: r.Range(3, 4)}
+		sc.Calls = []Call{{At: r.Range(1, P-1), Kind: []string{"run", "runif"}[r.Intn(2)], Cctx: kc()}}
+		if r.Bool() {
+			sc.Calls = append(sc.Calls, Call{At: P + sc.Dur + 1, Kind: "run", Cctx: []string{"", kc()}[r.Intn(2)]})
+		}
+		sc.End = sc.Ticks*(P+sc.Dur) + sc.Dur + 2
+		tags = []string{"cctx:periodic-early-run-then-ticks"}
+	case 4: // periodic, cancel with a dead caller context
+		P := r.Range(2, 4)
+		sc = Script{Kind: "periodic", Due: P, Dur: r.Range(0, 1), Ticks: r.Range(2, 4)}
+		sc.Calls = []Call{{At: r.Range(1, 2*P), Kind: []string{"cancel", "cancelif"}[r.Intn(2)], Cctx: kc()}}
+		sc.End = sc.Ticks*(P+sc.Dur) + sc.Dur + 2
+		tags = []string{"cctx:periodic-cancel"}
+	case 5: // run and cancel around each other, both with contexts of their own
+		T := r.Range(4, 7)
+		sc = Script{Kind: "oneoff", Due: T, Dur: r.Range(0, 2)}
+		a := r.Range(1, T-1)
+		sc.Calls = []Call{{At: a, Kind: "run", Cctx: kc()}, {At: a + r.Range(0, 1), Kind: "cancel", Cctx: kc()}}
+		tags = []string{"cctx:oneoff-run+cancel"}
+	default: // a script of the ordinary families with the callers' contexts drawn at random
+		if r.Chance(2, 3) {
+			sc, tags = genOneOff(r)
+		} else {
+			sc, tags = genPeriodic(r)
+		}
+		some := false
+		for k := range sc.Calls {
+			switch sc.Calls[k].Kind {
+			case "run", "runif", "cancel", "cancelif", "exists", "resched":
+				if r.Chance(2, 3) {
+					sc.Calls[k].Cctx = kc()
+					some = true
+				}
+			}
+		}
+		if !some {
+			sc.Calls = append(sc.Calls, Call{At: r.Range(1, 3), Kind: "run", Cctx: kc()})
+		}
+	}
+	return sc, append(tags, "caller-ctx")
+}
+
+// genReal: scripts run in REAL time with the timer channels production has (buffered, go directive 1.22):
+// what a long-lived timer that is re-armed leaves in its channel cannot be seen in a bubble or with the
+// harness module's own Go version.  Events are whole units apart; no family relies on two events of one unit
+// being ordered.
+func genReal(r *Rand, i int) (Script, []string) {
+	var sc Script
+	var tags []string
+	switch fam := i % 10; fam {
+	case 0, 1: // periodic: an early run whose jobFunc outlasts the tick it pre-empted, then further instances
+		P := r.Range(2, 3)
+		a := r.Range(1, P-1)
+		D := P - a + r.Range(1, 2)
+		sc = Script{Kind: "periodic", Due: P, Dur: D, Ticks: 3, Calls: []Call{{At: a, Kind: []string{"run", "run", "runif"}[r.Intn(3)]}}}
+		sc.End = a + D + 2*(P+D) + 1
+		tags = []string{"real:periodic-early-run-outlasts-tick"}
+	case 2: // the same, the early run outlasting two periods
+		P := 2
+		D := 2*P + 1
+		sc = Script{Kind: "periodic", Due: P, Dur: D, Ticks: 2, Calls: []Call{{At: 1, Kind: "run"}}}
+		sc.End = 1 + D + (P + D) + 1
+		tags = []string{"real:periodic-early-run-outlasts-two-periods"}
+	case 3: // two early runs, each outlasting the tick it pre-empted
+		P := 3
+		D := 3
+		sc = Script{Kind: "periodic", Due: P, Dur: D, Ticks: 3, Calls: []Call{{At: 1, Kind: "run"}, {At: 1 + D + 1, Kind: "run"}}}
+		sc.End = 1 + D + 1 + D + P + D + 1
+		tags = []string{"real:periodic-two-early-runs"}
+	case 4: // an early run that outlasts the tick, then the job is cancelled while idle
+		P := r.Range(2, 3)
+		D := P + 1
+		sc = Script{Kind: "periodic", Due: P, Dur: D, Ticks: 3, Calls: []Call{{At: 1, Kind: "run"}, {At: 1 + D + 1, Kind: []string{"cancel", "ctx"}[r.Intn(2)]}}}
+		sc.End = 1 + D + P + 2
+		tags = []string{"real:periodic-early-run-then-cancel"}
+	case 5: // control: the early run finishes before the tick; and the timer alone
+		P := 4
+		sc = Script{Kind: "periodic", Due: P, Dur: 1, Ticks: 2}
+		if r.Bool() {
+			sc.Calls = []Call{{At: 1, Kind: "run"}}
+			sc.End = 2 + (P + 1) + 2
+		} else {
+			sc.End = 2*(P+1) + 2
+		}
+		tags = []string{"real:periodic-control"}
+	case 6: // one-off: an early run whose jobFunc outlasts the job's time
+		T := r.Range(2, 4)
+		a := r.Range(1, T-1)
+		sc = Script{Kind: "oneoff", Due: T, Dur: T - a + r.Range(1, 2), Calls: []Call{{At: a, Kind: []string{"run", "runif"}[r.Intn(2)]}}}
+		tags = []string{"real:oneoff-early-run-outlasts-T"}
+	case 7: // one-off: the timer alone, then a late run request
+		T := r.Range(2, 3)
+		sc = Script{Kind: "oneoff", Due: T, Dur: r.Range(1, 2)}
+		if r.Bool() {
+			sc.Calls = []Call{{At: T + 1, Kind: "run"}}
+		}
+		tags = []string{"real:oneoff-timer"}
+	case 8: // one-off: cancelled (or its context) clearly before its time
+		T := r.Range(3, 4)
+		sc = Script{Kind: "oneoff", Due: T, Dur: 1, Calls: []Call{{At: 1, Kind: []string{"cancel", "ctx", "cancelif"}[r.Intn(3)]}}}
+		tags = []string{"real:oneoff-cancel-before-T"}
+	default: // one-off: an early run with a cancelled caller context, outlasting T
+		T := 3
+		sc = Script{Kind: "oneoff", Due: T, Dur: 3, Calls: []Call{{At: 1, Kind: "run", Cctx: "done"}}}
+		tags = []string{"real:oneoff-early-run-dead-caller"}
+	}
+	sc.Real, sc.Unit = true, 30
+	return sc, tags
+}
+
 // hangProne: a periodic job with two run requests at one instant can leave the second one blocked
 // on the full runCh holding the job's state lock while the goroutine waits for that lock in
 // finaliseJob (reported observation outside the property, C02_obs_periodic_runjob_can_block); a
@@ -757,9 +1057,9 @@ func genTable(r *Rand) []TOp {
 		case k < 4:
 			ops = append(ops, TOp{Op: "sched", Name: name, Periodic: r.Chance(1, 3)})
 		case k < 7:
-			ops = append(ops, TOp{Op: "run", Name: name})
+			ops = append(ops, TOp{Op: []string{"run", "run", "runif", "fire"}[r.Intn(4)], Name: name})
 		case k < 9:
-			ops = append(ops, TOp{Op: "cancel", Name: name})
+			ops = append(ops, TOp{Op: []string{"cancel", "cancel", "cancelif"}[r.Intn(3)], Name: name})
 		case k < 11:
 			ops = append(ops, TOp{Op: "exists", Name: name})
 		default:
@@ -770,82 +1070,159 @@ func genTable(r *Rand) []TOp {
 			}
 		}
 	}
+	// one history in three hands a cancelled or expired CALLER context to some of its calls
+	if r.Chance(1, 3) {
+		for i := range ops {
+			if ops[i].Op != "sched" && r.Chance(1, 2) {
+				ops[i].Cctx = []string{"done", "expired"}[r.Intn(2)]
+			}
+		}
+	}
 	return ops
 }
 
 // ---------------------------------------------------------------------------------------------
 // sequential histories over several names
 
-func runTable(t *testing.T, ops []TOp) (outs []string, runs []string, nontrivial bool) {
+// tableSched: what a history needs of a scheduler (the real one and harness/mocks.RecScheduler).
+type tableSched interface {
+	ScheduleJob(ctx context.Context, class string, name string, runtime time.Time, job scheduler.JobFunc) error
+	SchedulePeriodicJob(ctx context.Context, class string, name string, runtime scheduler.RuntimeFunc, job scheduler.JobFunc) error
+	RunJob(ctx context.Context, name string) error
+	RunJobIfExists(ctx context.Context, name string)
+	CancelJob(ctx context.Context, name string) error
+	CancelJobIfExists(ctx context.Context, name string)
+	CancelJobs(ctx context.Context, prefix string)
+	JobExists(ctx context.Context, name string) bool
+	ListJobs(ctx context.Context) []string
+}
+
+func tcode(err error) string {
+	c := codeOf(err)
+	if c == "Foreign" {
+		return "TOther"
+	}
+	return App("TCode", strings.TrimPrefix(c, "Ret "))
+}
+
+// applyTable runs a history against one scheduler.  fire: how "the job's time arrives" is produced for an
+// operation "fire" (the real scheduler: RunJob, the same table section; the mock: its explicit Fire).
+// rest: called after every operation (the system comes to rest before the next one).
+func applyTable(svc tableSched, ops []TOp, fire func(ctx context.Context, name string) error, rest func()) (outs []string, runs []string, nontrivial bool) {
 	var counts []*atomic.Int64
 	dupSeen, runSeen, reuseSeen := false, false, false
+	ctx, cancel := context.WithCancel(context.Background())
+	defer cancel()
+	used := map[int]bool{}
+	nm := func(i int) string { return fmt.Sprintf("n%d", i) }
+	for _, op := range ops {
+		// the caller's context of everything but ScheduleJob (whose context is the job's own)
+		cctx, release := ctx, func() {}
+		if op.Op != "sched" {
+			cctx, release = callerCtx(ctx, op.Cctx)
+		}
+		switch op.Op {
+		case "sched":
+			c := &atomic.Int64{}
+			f := func(context.Context) { c.Add(1) }
+			var err error
+			if op.Periodic {
+				err = svc.SchedulePeriodicJob(ctx, "c02", nm(op.Name), func(context.Context) (time.Time, error) { return time.Now().Add(time.Hour), nil }, f)
+			} else {
+				err = svc.ScheduleJob(ctx, "c02", nm(op.Name), time.Now().Add(time.Hour), f)
+			}
+			if err == nil {
+				counts = append(counts, c)
+				if used[op.Name] {
+					reuseSeen = true
+				}
+				used[op.Name] = true
+			} else {
+				dupSeen = true
+			}
+			outs = append(outs, tcode(err))
+		case "run", "fire":
+			var err error
+			if op.Op == "fire" {
+				err = fire(cctx, nm(op.Name))
+			} else {
+				err = svc.RunJob(cctx, nm(op.Name))
+			}
+			if err == nil {
+				runSeen = true
+			}
+			outs = append(outs, tcode(err))
+		case "runif":
+			svc.RunJobIfExists(cctx, nm(op.Name))
+			outs = append(outs, "TSilent")
+		case "cancel":
+			outs = append(outs, tcode(svc.CancelJob(cctx, nm(op.Name))))
+		case "cancelif":
+			svc.CancelJobIfExists(cctx, nm(op.Name))
+			outs = append(outs, "TSilent")
+		case "cancelall":
+			svc.CancelJobs(cctx, "n")
+			outs = append(outs, App("TCode", "Nil"))
+		case "exists":
+			outs = append(outs, App("TBool", Bool(svc.JobExists(cctx, nm(op.Name)))))
+		case "list":
+			var ids []int
+			for _, s := range svc.ListJobs(cctx) {
+				var i int
+				fmt.Sscanf(s, "n%d", &i)
+				ids = append(ids, i)
+			}
+			sort.Ints(ids)
+			items := make([]string, 0, len(ids))
+			for _, i := range ids {
+				items = append(items, N(uint64(i)))
+			}
+			outs = append(outs, App("TNames", List(items)))
+		}
+		release()
+		// the system comes to rest (a started jobFunc returns at once) before the next operation
+		rest()
+	}
+	cancel()
+	rest()
+	for j, c := range counts {
+		runs = append(runs, Pair(N(uint64(j)), N(uint64(c.Load()))))
+	}
+	return outs, runs, dupSeen && runSeen && reuseSeen
+}
+
+// MockTable: the same history on harness/mocks.RecScheduler, with RunInline and without.
+type MockTable struct {
+	InlineOuts []string `json:"inline_outs"`
+	InlineRuns []string `json:"inline_runs"`
+	RecOuts    []string `json:"rec_outs"`
+	RecRuns    []string `json:"rec_runs"`
+}
+
+func runTable(t *testing.T, ops []TOp) (outs []string, runs []string, nontrivial bool, mk MockTable) {
 	synctest.Test(t, func(*testing.T) {
 		svc, err := advanced.New(context.Background(), advanced.WithLogLevel(zerolog.Disabled), advanced.WithMonitor(nullmetrics.New()))
 		if err != nil {
 			panic(err)
 		}
-		ctx, cancel := context.WithCancel(context.Background())
-		defer cancel()
-		used := map[int]bool{}
-		nm := func(i int) string { return fmt.Sprintf("n%d", i) }
-		for _, op := range ops {
-			switch op.Op {
-			case "sched":
-				c := &atomic.Int64{}
-				f := func(context.Context) { c.Add(1) }
-				var err error
-				if op.Periodic {
-					err = svc.SchedulePeriodicJob(ctx, "c02", nm(op.Name), func(context.Context) (time.Time, error) { return time.Now().Add(time.Hour), nil }, f)
-				} else {
-					err = svc.ScheduleJob(ctx, "c02", nm(op.Name), time.Now().Add(time.Hour), f)
-				}
-				if err == nil {
-					counts = append(counts, c)
-					if used[op.Name] {
-						reuseSeen = true
-					}
-					used[op.Name] = true
-				} else {
-					dupSeen = true
-				}
-				outs = append(outs, App("TCode", strings.TrimPrefix(codeOf(err), "Ret ")))
-			case "run":
-				err := svc.RunJob(ctx, nm(op.Name))
-				if err == nil {
-					runSeen = true
-				}
-				outs = append(outs, App("TCode", strings.TrimPrefix(codeOf(err), "Ret ")))
-			case "cancel":
-				outs = append(outs, App("TCode", strings.TrimPrefix(codeOf(svc.CancelJob(ctx, nm(op.Name))), "Ret ")))
-			case "cancelall":
-				svc.CancelJobs(ctx, "n")
-				outs = append(outs, App("TCode", "Nil"))
-			case "exists":
-				outs = append(outs, App("TBool", Bool(svc.JobExists(ctx, nm(op.Name)))))
-			case "list":
-				var ids []int
-				for _, s := range svc.ListJobs(ctx) {
-					var i int
-					fmt.Sscanf(s, "n%d", &i)
-					ids = append(ids, i)
-				}
-				sort.Ints(ids)
-				items := make([]string, 0, len(ids))
-				for _, i := range ids {
-					items = append(items, N(uint64(i)))
-				}
-				outs = append(outs, App("TNames", List(items)))
-			}
-			// the system comes to rest (a started jobFunc returns at once) before the next operation
-			synctest.Wait()
-		}
-		cancel()
-		synctest.Wait()
+		outs, runs, nontrivial = applyTable(svc, ops, svc.RunJob, synctest.Wait)
 	})
-	for j, c := range counts {
-		runs = append(runs, Pair(N(uint64(j)), N(uint64(c.Load()))))
+	fireOf := func(m *mocks.RecScheduler) func(context.Context, string) error {
+		return func(ctx context.Context, name string) error {
+			if m.Fire(ctx, name) {
+				return nil
+			}
+			return scheduler.ErrNoSuchJob
+		}
 	}
-	return outs, runs, dupSeen && runSeen && reuseSeen
+	inline := mocks.NewRecScheduler()
+	inline.RunInline = true
+	mk.InlineOuts, mk.InlineRuns, _ = applyTable(inline, ops, fireOf(inline), func() {})
+	// without RunInline a run request is recorded and the entry removed, the function is not called; Fire
+	// always calls it, so in this pass "fire" is issued as RunJob too
+	rec := mocks.NewRecScheduler()
+	mk.RecOuts, mk.RecRuns, _ = applyTable(rec, ops, rec.RunJob, func() {})
+	return outs, runs, nontrivial, mk
 }
 
 func tableTerm(ops []TOp) string {
@@ -854,10 +1231,14 @@ func tableTerm(ops []TOp) string {
 		switch op.Op {
 		case "sched":
 			items = append(items, App("TSched", N(uint64(op.Name)), Bool(op.Periodic)))
-		case "run":
+		case "run", "fire":
 			items = append(items, App("TRun", N(uint64(op.Name))))
+		case "runif":
+			items = append(items, App("TRunIf", N(uint64(op.Name))))
 		case "cancel":
 			items = append(items, App("TCancel", N(uint64(op.Name))))
+		case "cancelif":
+			items = append(items, App("TCancelIf", N(uint64(op.Name))))
 		case "exists":
 			items = append(items, App("TExists", N(uint64(op.Name))))
 		case "cancelall":
@@ -886,9 +1267,12 @@ type Result struct {
 	TableOuts []string `json:"table_outs,omitempty"`
 	TableRuns []string `json:"table_runs,omitempty"`
 	TableNT   bool     `json:"table_nt,omitempty"`
+	Mock      MockTable `json:"mock,omitempty"`
 	Bubbles   int      `json:"bubbles"`
 	Hung      int      `json:"hung"`
 	Crashed   string   `json:"crashed,omitempty"` // parent only: the child died on this input
+	AsyncTimer bool    `json:"async_timer,omitempty"` // real-time items: the process had the buffered (pre-1.23) timer channels
+	Noisy     int      `json:"noisy,omitempty"`       // real-time items: repetitions discarded because the machine was late
 }
 
 // child: runs the work items from VERIF_C02_FROM on, one JSON line per finished item.  A panic inside
@@ -909,10 +1293,35 @@ func child(t *testing.T) {
 	}
 	defer out.Close()
 	totalHung := 0
+	if os.Getenv("VERIF_C02_REAL") == "batch" {
+		// real-time scripts: all at once (each has its own scheduler and sleeps most of the time), the
+		// repetitions of one script one after the other; results are written when all are done
+		from := EnvInt("VERIF_C02_FROM", 0)
+		async := asyncTimerChan()
+		results := make([]Result, len(work))
+		var wg sync.WaitGroup
+		for i := from; i < len(work); i++ {
+			wg.Add(1)
+			go func() {
+				defer wg.Done()
+				results[i] = realItem(i, work[i], async)
+			}()
+		}
+		wg.Wait()
+		for i := from; i < len(work); i++ {
+			line, _ := json.Marshal(results[i])
+			if _, err := out.Write(append(line, '\n')); err != nil {
+				t.Fatal(err)
+			}
+		}
+		return
+	}
 	for i := EnvInt("VERIF_C02_FROM", 0); i < len(work); i++ {
 		w := work[i]
 		res := Result{Index: i}
-		if w.In.Burst != nil {
+		if w.In.Script != nil && w.In.Script.Real {
+			res = realItem(i, w, asyncTimerChan())
+		} else if w.In.Burst != nil {
 			distinct := map[string]*BObs{}
 			var order []string
 			for k := 0; k < w.Reps; k++ {
@@ -939,7 +1348,7 @@ func child(t *testing.T) {
 				res.BObserved = append(res.BObserved, *distinct[key])
 			}
 		} else if w.In.Script == nil {
-			res.TableOuts, res.TableRuns, res.TableNT = runTable(t, w.In.Table)
+			res.TableOuts, res.TableRuns, res.TableNT, res.Mock = runTable(t, w.In.Table)
 			res.Bubbles = 1
 		} else {
 			distinct := map[string]*Obs{}
@@ -974,6 +1383,112 @@ func child(t *testing.T) {
 			t.Fatal(err)
 		}
 	}
+}
+
+// asyncTimerChan: does this process have the pre-1.23 timer channels (buffered: a value that was sent before
+// a Reset stays in the channel)?  That is what the repository's go directive (1.22) selects for production
+// builds, and what GODEBUG=asynctimerchan=1 selects for this process.
+func asyncTimerChan() bool {
+	tm := time.NewTimer(time.Millisecond)
+	time.Sleep(20 * time.Millisecond)
+	tm.Reset(time.Hour)
+	defer tm.Stop()
+	select {
+	case <-tm.C:
+		return true
+	default:
+		return false
+	}
+}
+
+// realItem: the serial repetitions of one real-time script, every one reported (no merging: the Coq side
+// applies the flake policy to the list).
+func realItem(i int, w Work, async bool) Result {
+	res := Result{Index: i, AsyncTimer: async}
+	distinct := map[string]*Obs{}
+	var order []string
+	quiet := 0
+	for k := 0; k < 2*w.Reps && quiet < w.Reps; k++ {
+		o, noisy := runRealOnce(*w.In.Script)
+		res.Bubbles++
+		if noisy {
+			res.Noisy++
+			continue
+		}
+		quiet++
+		if o.Hung {
+			res.Hung++
+		}
+		key := obsKey(o)
+		if e, ok := distinct[key]; ok {
+			e.Count++
+		} else {
+			o.Count = 1
+			distinct[key] = &o
+			order = append(order, key)
+		}
+	}
+	for _, key := range order {
+		res.Observed = append(res.Observed, *distinct[key])
+	}
+	return res
+}
+
+// runChildren runs the work items in a child process (this test binary), restarted after the item on which it
+// dies; one Result per item.
+func runChildren(t *testing.T, dir string, tag string, work []Work, env []string, crashes *int) []Result {
+	workFile, resFile := dir+"/work_"+tag+".json", dir+"/results_"+tag+".jsonl"
+	data, _ := json.Marshal(work)
+	if err := os.WriteFile(workFile, data, 0o644); err != nil {
+		t.Fatal(err)
+	}
+	results := make([]Result, 0, len(work))
+	for len(results) < len(work) {
+		os.Remove(resFile)
+		cmd := exec.Command(os.Args[0], "-test.run", "^TestC02$", "-test.count=1", "-test.timeout", "3000s")
+		cmd.Env = append(os.Environ(), "VERIF_C02_CHILD=1", "VERIF_C02_WORK="+workFile, "VERIF_C02_RESULTS="+resFile,
+			fmt.Sprintf("VERIF_C02_FROM=%d", len(results)))
+		cmd.Env = append(cmd.Env, env...)
+		outb, runErr := cmd.CombinedOutput()
+		before := len(results)
+		if f, err := os.Open(resFile); err == nil {
+			scan := bufio.NewScanner(f)
+			scan.Buffer(make([]byte, 1<<20), 1<<26)
+			for scan.Scan() {
+				var r Result
+				if json.Unmarshal(scan.Bytes(), &r) == nil && r.Index == len(results) {
+					results = append(results, r)
+				}
+			}
+			f.Close()
+		}
+		if len(results) < len(work) {
+			if tag == "real" && len(results) == before && len(env) > 0 && env[len(env)-1] == "VERIF_C02_REAL=batch" {
+				// the batch died: one item at a time from here on, so that the culprit is known
+				env = append(append([]string(nil), env[:len(env)-1]...), "VERIF_C02_REAL=serial")
+				continue
+			}
+			// the child died on input number len(results)
+			*crashes++
+			msg := string(outb)
+			if i := strings.Index(msg, "panic:"); i >= 0 {
+				msg = msg[i:]
+			} else if i := strings.Index(msg, "fatal error:"); i >= 0 {
+				msg = msg[i:]
+			}
+			if len(msg) > 300 {
+				msg = msg[:300]
+			}
+			if runErr == nil {
+				msg = "child stopped early: " + msg
+			}
+			results = append(results, Result{Index: len(results), Crashed: msg})
+			if *crashes > 40 {
+				t.Fatalf("the harness process died on more than 40 inputs; last: %s", msg)
+			}
+		}
+	}
+	return results
 }
 
 func TestC02(t *testing.T) {
@@ -1031,6 +1546,28 @@ func TestC02(t *testing.T) {
 		b, tags := genBurst(brng.Fork())
 		ins = append(ins, Input{Burst: &b, Tags: tags})
 	}
+	// callers with cancelled contexts, and real-time scripts: on top again, each from its own stream
+	crng := rng.Fork()
+	nc := n / 6
+	if n > 0 && nc < 12 {
+		nc = 12
+	}
+	for i := 0; i < nc; i++ {
+		sc, tags := genCallerCtx(crng.Fork(), i)
+		ins = append(ins, Input{Script: &sc, Tags: tags})
+	}
+	rrng := rng.Fork()
+	nr := n / 30
+	if n > 0 && nr < 10 {
+		nr = 10
+	}
+	if os.Getenv("VERIF_C02_NOREAL") != "" {
+		nr = 0
+	}
+	for i := 0; i < nr; i++ {
+		sc, tags := genReal(rrng.Fork(), i)
+		ins = append(ins, Input{Script: &sc, Tags: tags})
+	}
 	// decide repetitions and tags
 	work := make([]Work, 0, len(ins))
 	for _, in := range ins {
@@ -1052,6 +1589,11 @@ func TestC02(t *testing.T) {
 		in.Script = &sc
 		tags := append([]string(nil), in.Tags...)
 		reps := sc.Reps
+		if sc.Real {
+			// outside bubbles: three serial repetitions, a disagreement counts when all three show it
+			work = append(work, Work{In: in, Reps: 3, Tags: append(tags, "real-time")})
+			continue
+		}
 		if tied(sc) {
 			tags = append(tags, "tied")
 			if reps <= 0 {
@@ -1068,55 +1610,42 @@ func TestC02(t *testing.T) {
 		}
 		work = append(work, Work{In: in, Reps: reps, Tags: tags})
 	}
-	// run them in a child process, restarted after the input on which it dies
+	// run them in a child process, restarted after the input on which it dies; the real-time scripts in a
+	// process of their own whose timer channels are those of the repository's go directive (1.22: buffered)
 	dir, err := os.MkdirTemp("", "c02")
 	if err != nil {
 		t.Fatal(err)
 	}
 	defer os.RemoveAll(dir)
-	workFile, resFile := dir+"/work.json", dir+"/results.jsonl"
-	data, _ := json.Marshal(work)
-	if err := os.WriteFile(workFile, data, 0o644); err != nil {
-		t.Fatal(err)
-	}
-	results := make([]Result, 0, len(work))
-	crashes := 0
-	for len(results) < len(work) {
-		os.Remove(resFile)
-		cmd := exec.Command(os.Args[0], "-test.run", "^TestC02$", "-test.count=1", "-test.timeout", "3000s")
-		cmd.Env = append(os.Environ(), "VERIF_C02_CHILD=1", "VERIF_C02_WORK="+workFile, "VERIF_C02_RESULTS="+resFile,
-			fmt.Sprintf("VERIF_C02_FROM=%d", len(results)))
-		outb, runErr := cmd.CombinedOutput()
-		if f, err := os.Open(resFile); err == nil {
-			scan := bufio.NewScanner(f)
-			scan.Buffer(make([]byte, 1<<20), 1<<26)
-			for scan.Scan() {
-				var r Result
-				if json.Unmarshal(scan.Bytes(), &r) == nil && r.Index == len(results) {
-					results = append(results, r)
-				}
-			}
-			f.Close()
+	var bubbleWork, realWork []Work
+	var bubbleIdx, realIdx []int
+	for i, w := range work {
+		if w.In.Script != nil && w.In.Script.Real {
+			realWork, realIdx = append(realWork, w), append(realIdx, i)
+		} else {
+			bubbleWork, bubbleIdx = append(bubbleWork, w), append(bubbleIdx, i)
 		}
-		if len(results) < len(work) {
-			// the child died on input number len(results)
-			crashes++
-			msg := string(outb)
-			if i := strings.Index(msg, "panic:"); i >= 0 {
-				msg = msg[i:]
-			} else if i := strings.Index(msg, "fatal error:"); i >= 0 {
-				msg = msg[i:]
-			}
-			if len(msg) > 300 {
-				msg = msg[:300]
-			}
-			if runErr == nil {
-				msg = "child stopped early: " + msg
-			}
-			results = append(results, Result{Index: len(results), Crashed: msg})
-			if crashes > 40 {
-				t.Fatalf("the harness process died on more than 40 inputs; last: %s", msg)
-			}
+	}
+	crashes := 0
+	results := make([]Result, len(work))
+	for k, r := range runChildren(t, dir, "bubble", bubbleWork, nil, &crashes) {
+		results[bubbleIdx[k]] = r
+	}
+	godebug := "asynctimerchan=1"
+	if g := os.Getenv("GODEBUG"); g != "" {
+		godebug = g + "," + godebug
+	}
+	asyncOK := true
+	for k, r := range runChildren(t, dir, "real", realWork, []string{"GODEBUG=" + godebug, "VERIF_C02_REAL=batch"}, &crashes) {
+		results[realIdx[k]] = r
+		if r.Crashed == "" && !r.AsyncTimer {
+			asyncOK = false
+		}
+	}
+	if len(realWork) > 0 {
+		col.Note(fmt.Sprintf("real-time scripts: %d, each repeated serially; run with GODEBUG=asynctimerchan=1; buffered timer channels in effect: %v", len(realWork), asyncOK))
+		if !asyncOK {
+			col.Count("real:buffered-timer-channels-NOT-in-effect")
 		}
 	}
 	// the statement order of the three lock-protected sections, from the source
@@ -1169,7 +1698,10 @@ func TestC02(t *testing.T) {
 				}
 			}
 			term := Record("c_id", N(id), "c_body", App("Burst", burstTerm(b), List(terms)))
-			col.Add(Case{Term: term, Key: "burst:" + burstTerm(b), Nontrivial: len(b.Lanes) >= 2 && scheds >= 1, Tags: w.Tags,
+			if b.Callers != "" {
+				col.Count("burst-callers:" + b.Callers)
+			}
+			col.Add(Case{Term: term, Key: "burst:" + b.Callers + burstTerm(b), Nontrivial: len(b.Lanes) >= 2 && scheds >= 1, Tags: w.Tags,
 				Sample: map[string]any{"input": in, "observed": observed, "process_died": res.Crashed}})
 			continue
 		}
@@ -1182,20 +1714,46 @@ func TestC02(t *testing.T) {
 			for _, op := range in.Table {
 				col.Count("table-op:" + op.Op)
 			}
-			term := Record("c_id", N(id), "c_body", App("Tabled", tableTerm(in.Table), List(outs), List(runs)))
-			col.Add(Case{Term: term, Key: tableTerm(in.Table), Nontrivial: res.TableNT, Tags: w.Tags,
-				Sample: map[string]any{"input": in, "observed": map[string]any{"outs": outs, "runs": runs, "process_died": res.Crashed}}})
+			mk := Record("mk_inline_outs", List(res.Mock.InlineOuts), "mk_inline_runs", List(res.Mock.InlineRuns),
+				"mk_rec_outs", List(res.Mock.RecOuts), "mk_rec_runs", List(res.Mock.RecRuns))
+			term := Record("c_id", N(id), "c_body", App("Tabled", tableTerm(in.Table), List(outs), List(runs), mk))
+			tkey := tableTerm(in.Table)
+			for _, op := range in.Table {
+				if op.Cctx != "" {
+					col.Count("table-caller-ctx:" + op.Cctx)
+				}
+				if op.Cctx != "" || op.Op == "fire" {
+					tkey += fmt.Sprintf(" %s/%s", op.Op, op.Cctx) // the caller's context and Fire are not part of the Coq term
+				}
+			}
+			col.Add(Case{Term: term, Key: tkey, Nontrivial: res.TableNT, Tags: w.Tags,
+				Sample: map[string]any{"input": in, "observed": map[string]any{"outs": outs, "runs": runs, "mock": res.Mock, "process_died": res.Crashed}}})
 			continue
 		}
 		sc := *in.Script
 		observed := res.Observed
+		if sc.Real && res.Crashed == "" {
+			if res.Noisy > 0 {
+				col.Count(fmt.Sprintf("real-time-repetitions-discarded-machine-late:%d", res.Noisy))
+			}
+			if len(observed) == 0 {
+				// no repetition ran on a quiet machine: nothing was observed, nothing is claimed
+				col.Count("real-time-script-skipped-machine-late")
+				col.Note(fmt.Sprintf("real-time script skipped (every repetition was disturbed by machine load): %s", scriptTerm(sc)))
+				continue
+			}
+			if len(observed) > 1 {
+				col.Count("real-time-repetitions-differ")
+				col.Note(fmt.Sprintf("case %d: the serial repetitions of a real-time script differ (%d distinct outcomes); it counts only if none is acceptable", id, len(observed)))
+			}
+		}
 		if res.Crashed != "" {
 			// the scheduler panicked in one of its own goroutines: reported as a panic outcome
 			calls := make([]string, len(expand(sc.Calls)))
 			for k := range calls {
 				calls[k] = "Hung"
 			}
-			observed = []Obs{{Calls: calls, Starts: []int{}, Reuse: "Ret Nil", Panic: true, Hung: true, Dup: "None", Count: 1}}
+			observed = []Obs{{Calls: calls, Starts: []int{}, Insts: []int{}, Reuse: "Ret Nil", Panic: true, Hung: true, Dup: "None", Count: 1}}
 			col.Note(fmt.Sprintf("case %d: the process died (%s)", id, res.Crashed))
 			col.Count("process-died")
 		}
@@ -1218,8 +1776,27 @@ func TestC02(t *testing.T) {
 			}
 		}
 		nt := len(sc.Calls) > 0 || sc.Due <= sc.End
-		term := Record("c_id", N(id), "c_body", App("Timed", scriptTerm(sc), List(obsTerms)))
-		col.Add(Case{Term: term, Key: scriptTerm(sc), Nontrivial: nt, Tags: w.Tags,
+		ctor, key := "Timed", scriptTerm(sc)
+		if sc.Real {
+			ctor, key = "Real", fmt.Sprintf("real/%d:%s", sc.Unit, key)
+			col.Count("real-time-script:" + sc.Kind)
+			col.Count(fmt.Sprintf("real-time-distinct-outcomes:%d", len(observed)))
+		}
+		for _, c := range sc.Calls {
+			if c.Cctx != "" {
+				col.Count("caller-ctx:" + c.Cctx + ":" + c.Kind)
+				key += fmt.Sprintf(" %d/%s", c.At, c.Cctx) // the callers' contexts are not part of the Coq term
+			}
+		}
+		for _, o := range observed {
+			if len(o.Foreign) > 0 {
+				col.Count("call-returned-foreign-error")
+				col.Note(fmt.Sprintf("case %d: a call returned an error outside the scheduler's set: %s", id, o.Foreign[0]))
+				break
+			}
+		}
+		term := Record("c_id", N(id), "c_body", App(ctor, scriptTerm(sc), List(obsTerms)))
+		col.Add(Case{Term: term, Key: key, Nontrivial: nt, Tags: w.Tags,
 			Sample: map[string]any{"input": in, "observed": observed, "process_died": res.Crashed}})
 	}
 	col.Note(fmt.Sprintf("bubbles run: %d (tied scripts repeated %d times, tie-free %d times); observations that never came to rest: %d; inputs on which the process died: %d",
